@@ -206,7 +206,8 @@ static int process_completed_fragment(sqfs_block_processor_t *proc,
 		offset = 0;
 		proc->frag_block = frag;
 		proc->frag_block->index = index;
-		proc->frag_block->flags &= SQFS_BLK_DONT_COMPRESS;
+		proc->frag_block->flags &= (SQFS_BLK_DONT_COMPRESS |
+					    SQFS_BLK_IGNORE_SPARSE);
 		proc->frag_block->flags |= SQFS_BLK_FRAGMENT_BLOCK;
 	} else {
 		index = proc->frag_block->index;
@@ -217,7 +218,8 @@ static int process_completed_fragment(sqfs_block_processor_t *proc,
 
 		proc->frag_block->size += frag->size;
 		proc->frag_block->flags |=
-			(frag->flags & SQFS_BLK_DONT_COMPRESS);
+			(frag->flags & (SQFS_BLK_DONT_COMPRESS |
+					SQFS_BLK_IGNORE_SPARSE));
 	}
 
 	if (proc->frag_tbl != NULL) {
